@@ -7,9 +7,13 @@ import (
 	"fmt"
 	"os"
 	"path/filepath"
+	"runtime"
 	"strconv"
 	"strings"
+	"sync"
+	"sync/atomic"
 	"testing"
+	"time"
 
 	"pgregory.net/rapid"
 
@@ -99,6 +103,7 @@ func writeJSON(path string, v any) {
 // attribution, known-finding accounting.
 func runProp[C any](t *testing.T, id string, gen func(*rapid.T) C, exec func(*testing.T, C) *Verdict) {
 	refT = t
+	startWatchdog()
 	if path := os.Getenv("VERIF_REPLAY"); path != "" {
 		replayProp(t, id, path, exec)
 		return
@@ -114,7 +119,9 @@ func runProp[C any](t *testing.T, id string, gen func(*rapid.T) C, exec func(*te
 			panic(err)
 		}
 		_ = os.WriteFile(cur, raw, 0o644)
+		caseStarted.Store(time.Now().UnixNano())
 		v := exec(t, c)
+		caseStarted.Store(0)
 		if v == nil {
 			return
 		}
@@ -134,6 +141,55 @@ func runProp[C any](t *testing.T, id string, gen func(*rapid.T) C, exec func(*te
 		}
 		writeJSON(vio, ReplayFile{Property: id, Test: t.Name(), Class: v.Class, Detail: v.Detail, TraceHash: v.TraceHash, Trace: v.Trace, Case: raw})
 		rt.Fatalf("VIOLATION %s", v.Class)
+	})
+}
+
+// caseTimeoutExit is the exit status when one case runs for too long in real
+// time or allocates without bound: code under test that spins or grows for
+// ever between two hook points cannot be seen by the simulated clock.
+const caseTimeoutExit = 4
+
+var (
+	caseStarted  atomic.Int64
+	watchdogOnce sync.Once
+)
+
+func startWatchdog() {
+	watchdogOnce.Do(func() {
+		limit := 30 * time.Second
+		if s := os.Getenv("VERIF_CASE_TIMEOUT"); s != "" {
+			if d, err := time.ParseDuration(s); err == nil {
+				limit = d
+			}
+		}
+		const heapLimit = 6 << 30
+		go func() {
+			var ms runtime.MemStats
+			for {
+				time.Sleep(250 * time.Millisecond)
+				st := caseStarted.Load()
+				if st == 0 {
+					continue
+				}
+				why := ""
+				if time.Since(time.Unix(0, st)) > limit {
+					why = fmt.Sprintf("one case has been running for more than %v of real time", limit)
+				} else {
+					runtime.ReadMemStats(&ms)
+					if ms.HeapAlloc > heapLimit {
+						why = fmt.Sprintf("heap grew beyond %d GiB during one case", heapLimit>>30)
+					}
+				}
+				if why == "" {
+					continue
+				}
+				buf := make([]byte, 1<<20)
+				n := runtime.Stack(buf, true)
+				fmt.Printf("CASE-TIMEOUT: %s\n%s\n", why, buf[:n])
+				sim.S().Flush()
+				os.Exit(caseTimeoutExit)
+			}
+		}()
 	})
 }
 
